@@ -65,11 +65,13 @@ def load_matrix(filename, comment_char):
                     numcols = max(numcols,max(col))
     # end with
     # A few sanity checks
-    assert (numrows == numcols), "Input matrix not square"
     if mat_length is not None:
         assert (len(row) == mat_length), "Input matrix length discrepancy"
     # Construct and return
-    sparse_matrix = scipy.sparse.coo_array((data,(row, col)))
+    # The matrix is square; its size is given by the largest index that appears
+    # (the largest row and column index differ e.g. for a triangular matrix)
+    size = max(numrows, numcols) + 1
+    sparse_matrix = scipy.sparse.coo_array((data,(row, col)), shape=(size, size))
     return sparse_matrix, constant
 
 def load_qubo_matrix(filename):
